@@ -74,7 +74,7 @@ world_hash(void)
 #define VSIZE (1u << 22)
 static uint64_t *vkeys;
 static unsigned char *vdepth;
-static long long n_states, n_trans, n_dedup, n_closed_trans;
+static long long n_states, n_trans, n_dedup, n_closed_trans, n_honest_fail;
 
 static int
 visit(uint64_t h, int remaining)
@@ -153,6 +153,7 @@ apply(int a)
 }
 
 static char path[400];
+static int start_has_reneg;   /* the start state already contains a renegotiation request */
 static char case_start[700];
 
 static void
@@ -170,6 +171,24 @@ explore(int remaining)
 		if (!apply(a)) { path[pl] = 0; continue; }
 		n_trans ++;
 		if (tp_ep_closed(&W.c) || tp_ep_closed(&W.s)) n_closed_trans ++;
+		/* both endpoints are honest and the transport is faithful: no engine may ever fail */
+		{
+			int ec = br_ssl_engine_last_error(W.c.eng), es = br_ssl_engine_last_error(W.s.eng);
+			if (ec != 0 || es != 0) {
+				char key[80], what[200];
+				int reneg = start_has_reneg || strstr(path, "renegotiate") != NULL;
+				int e = ec ? ec : es;
+				/* application data crossing a renegotiation request fails with UNEXPECTED: same root cause as the C19 finding */
+				if (e == BR_ERR_UNEXPECTED && reneg) snprintf(key, sizeof key, "honest-failure:data-crossing-renegotiation");
+				else snprintf(key, sizeof key, "honest-failure:error-%d", e);
+				snprintf(what, sizeof what, "engine failed (client err=%d, server err=%d) although both peers are honest and every byte was delivered in order", ec, es);
+				TP_VIOL(key, what);
+				n_honest_fail ++;
+				world_restore(&ws);
+				path[pl] = 0;
+				continue;
+			}
+		}
 		h = world_hash();
 		if (visit(h, remaining - 1)) {
 			explore(remaining - 1);
@@ -295,7 +314,9 @@ main(int argc, char **argv)
 				tp_act_recvrec(&W.c, &W.s2c, 100000); tp_act_recvrec(&W.c, &W.s2c, 100000); break;   /* HelloRequest received */
 			}
 			if ((startno ++ % nworkers) == worker) {
+				start_has_reneg = phase >= 8;
 				explore_from_here(depth, "data-phase", phase);
+				start_has_reneg = 0;
 			}
 			world_restore(&base);
 			world_free(&base);
@@ -314,6 +335,7 @@ main(int argc, char **argv)
 	vf_stat("transitions", n_trans);
 	vf_stat("dedup_hits", n_dedup);
 	vf_stat("transitions_with_closed_endpoint", n_closed_trans);
+	vf_stat("honest_failures", n_honest_fail);
 	vf_stat("monitored_calls", tp_calls);
 	vf_sample("{\"depth\":%d,\"stride\":%d,\"configs\":%d,\"states\":%lld,\"transitions\":%lld}", depth, stride, nconf, n_states, n_trans);
 	vf_done();
